@@ -122,6 +122,7 @@ pub fn generate(seed: u64, tier: &str, sink: &mut Sink) {
                 format!("reads={}", rname),
                 size_bucket.to_string(),
                 format!("trail={}", !spec.trail.is_empty()),
+                format!("trailers={}", match &spec.body { BodySpec::Chunked { trailers, .. } => match trailers.len() { 0 => "0", 1..=5 => "1-5", _ => ">5" }, _ => "-" }),
             ],
             op: case.op_line(),
             impl_line: out.line(),
